@@ -108,6 +108,39 @@ def fragment_b(which):
     )
 
 
+REPLAY_B = r'''
+import sys, json, os, ast, re
+src = open(os.path.join(os.environ['VERIF_REPO'], 'batch/batch/front_end/front_end.py')).read()
+tree = ast.parse(src)
+fn = [n for n in ast.walk(tree) if isinstance(n, ast.AsyncFunctionDef) and n.name == '_create_jobs'][0]
+loop = [n for n in fn.body if isinstance(n, ast.For)][0]
+stmts = []; take = False
+for st in loop.body:
+    t = ast.unparse(st)
+    if re.match(r'^jobs_args\.append\(', t): take = True
+    if take:
+        stmts.append(st)
+        if isinstance(st, ast.For) and ast.unparse(st.target) == 'parent_id': break
+class J:
+    @staticmethod
+    def dumps(x): return 'json'
+res = {'confirmed': False}
+for parent_ids in ([], [1], [1, 2], [1, 1], [2, 1, 2], [3, 3, 3]):
+    env = {'batch_id': 7, 'job_id': 9, 'update_id': 1, 'job_group_id': 0, 'state': 'Pending', 'db_spec': {}, 'always_run': False, 'cores_mcpu': 1000, 'parent_ids': list(parent_ids),
+           'in_update_parent_ids': list(parent_ids), 'absolute_parent_ids': [], 'inst_coll_name': 'standard', 'n_regions': None, 'regions_bits_rep': None, 'n_max_attempts': 20, 'time_ready': None,
+           'jobs_args': [], 'job_parents_args': [], 'jobs_telemetry_args': [], 'json': J}
+    exec(compile(ast.Module(body=stmts, type_ignores=[]), 'front_end-fragment', 'exec'), env)
+    rows = env['job_parents_args']; jr = env['jobs_args'][-1]
+    problems = []
+    if rows != [(7, 9, p) for p in parent_ids]: problems.append('job_parents rows %r for parents %r' % (rows, parent_ids))
+    if jr[8] != len(parent_ids): problems.append('n_pending_parents %r for %d parents' % (jr[8], len(parent_ids)))
+    if len(rows) != jr[8]: problems.append('n_pending_parents %r but %d parent rows: the job can never become Ready' % (jr[8], len(rows)))
+    if problems:
+        res = {'confirmed': True, 'input': {'parent_ids': parent_ids}, 'problems': problems}; break
+print(json.dumps(res))
+'''
+
+
 def add(ctx, a=None, b=None, replayer=None):
     """a / b: iterable of clause names to claim from fragment A / B (None = all, () = skip the fragment)"""
     if a is None or len(a) > 0:
@@ -118,7 +151,6 @@ def add(ctx, a=None, b=None, replayer=None):
         eng.run()
     if b is None or len(b) > 0:
         eng = pyvc.Engine(ctx, fragment_b(b))
-        if replayer:
-            eng.replayer = replayer
+        eng.replayer = replayer or (lambda model, obl: core.run_native(REPLAY_B, {}))
         eng.run()
     ctx.assume('_create_jobs is verified on two fragments of its per-job loop body; the variables they read are arbitrary symbolic inputs and everything outside the fragments is dropped (stated in contracts/create_jobs_frag.py)')
